@@ -504,14 +504,15 @@ def check_baf(ctx, arr, name, all_rows, het_rows, paired, tables, variants, sub)
                 kw["above_half"] = above_half
             if tb:
                 kw["tumor_boost"] = True
-            got = ctx.call(lambda: [py(x) for x in arr.baf_by_ranges(seg, **kw)])
             if het_rows is None:
-                ctx.stratum("baf-not-claimed(no-het-fallback)")
-                if isinstance(got, Exc):
-                    ctx.violation(BAF_CLAUSE, f"baf_by_ranges/{name}/raises/{got.key}/fallback", expected="one value per range", observed=got, sub={**sub, **tab, **kw})
+                ctx.stratum("baf-not-claimed(no-het-fallback-or-open-genotype)")
                 continue
             freq_of = boosted if tb else (lambda s: s["t"])
             adm = expected_baf(het_rows, ranges, above_half, freq_of)
+            if all(a == M.OPEN for a in adm):
+                ctx.stratum("baf-not-claimed(open-frequencies)")
+                continue
+            got = ctx.call(lambda: [py(x) for x in arr.baf_by_ranges(seg, **kw)])
             feat = baf_feature(het_rows, ranges, above_half, freq_of, all_rows, tb)
             if not all_rows:
                 feat = "no-records/" + feat
@@ -538,12 +539,16 @@ def variants_for(tier_full):
 def check_vectors(ctx, arr, name, rows, paired, sub):
     """tumor_boost() and mirrored_baf() are per-row vectors in the array's row order."""
     if paired:
-        got = ctx.call(lambda: [py(x) for x in arr.tumor_boost()])
         adm = []
         for s in rows:
             b = boosted(s)
             adm.append(M.OPEN if b is None else [b])
-        cmp_vector(ctx, BOOST_CLAUSE, f"tumor_boost/{name}", adm, got, sub)
+        if any(a != M.OPEN for a in adm):
+            got = ctx.call(lambda: [py(x) for x in arr.tumor_boost()])
+            cmp_vector(ctx, BOOST_CLAUSE, f"tumor_boost/{name}", adm, got, sub)
+            ctx.stratum("tumor_boost-vector")
+        else:
+            ctx.stratum("tumor_boost-not-claimed(no-defined-pair-of-frequencies)")
     for above_half in (None, True, False):
         for tb in (False, True) if paired else (False,):
             vals = [boosted(s) if tb else s["t"] for s in rows]
@@ -580,6 +585,15 @@ def check_het(ctx, vcf, path, sid, nid, min_depth, zf, tb, prefix, feat, sub):
     if sel is None:
         return None
     s, nids = sel
+    if tb:
+        nn = sorted(nids, key=lambda x: (x is not None, str(x)))[-1]
+        if nn is None:
+            ctx.stratum("het-tumor-boost-unpaired-not-claimed")
+            return None
+        allrows = snp_table(vcf, M.expected_rows(vcf, s, nn), list(range(len(vcf["records"]))), True)
+        if all(boosted(x) is None for x in allrows):
+            ctx.stratum("het-tumor-boost-not-claimed(no-defined-pair-of-frequencies)")
+            return None
     kw = sel_kwargs(sid, nid)
     kw["min_variant_depth"] = min_depth
     if zf is not None:
